@@ -172,7 +172,7 @@ def top_for(defs, resnames, extra_inter=None):
     return "\n".join(lines) + "\n"
 
 
-def gen_templates(toptext, bldtext, layout):
+def gen_templates(toptext, bldtext, layout, skip_filter=False):
     """Topology reader + build file + GenerateTemplates on files; returns (topology, optimisation records)"""
     from polyply.src.topology import Topology
     from polyply.src.load_library import load_build_files
@@ -196,7 +196,7 @@ def gen_templates(toptext, bldtext, layout):
         gt.optimize_geometry = spy
         try:
             with layout_seam(layout):
-                gt.GenerateTemplates(topology=top, max_opt=10, skip_filter=False).run_system(top)
+                gt.GenerateTemplates(topology=top, max_opt=10, skip_filter=skip_filter).run_system(top)
         finally:
             gt.optimize_geometry = real_opt
     return top, records
@@ -336,11 +336,12 @@ def check_pairs(case):
             continue
         for same_name in (True, False):
             resnames = ["R", "R"] if same_name else ["R", "Q"]
-            for layout in ((0,) if case["tier"] == "quick" and (a + b) % 3 else (0, 1, 2)):
+            for layout in ((0,) if case["tier"] == "quick" and (a + b) % 3 else (0, 1, 2, "skip")):
                 evals += 1
                 case1 = dict(kind="pair1", a=da["id"], b=db["id"], same_name=same_name, layout=layout)
                 try:
-                    top, recs = gen_templates(top_for([da, db], resnames), None, layout)
+                    # 'skip': the -skip_filter route (templates looked up per residue, not per group), layout 0
+                    top, recs = gen_templates(top_for([da, db], resnames), None, 0 if layout == "skip" else layout, skip_filter=layout == "skip")
                 except Exception as exc:  # noqa
                     viols.append(crash_violation(exc, case1, assertion="templates-generated"))
                     continue
@@ -450,7 +451,7 @@ def check_user(case):
     d2 = dict(id="u2", names=["A", "B"], bonds=[(0, 1, 0.3)], angles=[])
     tmpl3 = {"A": (0.0, 0.0, 0.0), "B": (0.31, 0.0, 0.02), "C": (0.45, 0.27, 0.0)}
     for give_t, give_v3, give_v2 in itertools.product((False, True), repeat=3):
-        for order in ("volumes-first", "template-first"):
+        for order, skip in itertools.product(("volumes-first", "template-first"), (False, True)):
             blocks = []
             tblock = ("[ template ]\nresname R\n[ atoms ]\n" + "".join(f"{n} P {p[0]} {p[1]} {p[2]}\n" for n, p in tmpl3.items()) + "[ bonds ]\nA B\nB C\n") if give_t else ""
             vlines = []
@@ -461,9 +462,9 @@ def check_user(case):
             vblock = ("[ volumes ]\n" + "\n".join(vlines) + "\n") if vlines else ""
             bld = (vblock + tblock) if order == "volumes-first" else (tblock + vblock)
             evals += 1
-            case1 = dict(kind="user1", give_t=give_t, give_v3=give_v3, give_v2=give_v2, order=order)
+            case1 = dict(kind="user1", give_t=give_t, give_v3=give_v3, give_v2=give_v2, order=order, skip=skip)
             try:
-                top, recs = gen_templates(top_for([d3, d2, d3], ["R", "Q", "R"]), bld, 0)
+                top, recs = gen_templates(top_for([d3, d2, d3], ["R", "Q", "R"]), bld, 0, skip_filter=skip)
             except Exception as exc:  # noqa
                 viols.append(crash_violation(exc, case1, assertion="templates-generated"))
                 continue
@@ -482,7 +483,7 @@ def check_user(case):
                 viols.append(dict(assertion="user-size-used-unchanged", tags=[], message=f"size of R {top.volumes.get(tkeys[0])} expected 0.77 ({bld!r})", case=case1, detail={}))
             if give_v2 and top.volumes.get(tkeys[1]) != 0.33:
                 viols.append(dict(assertion="user-size-used-unchanged", tags=[], message=f"size of Q {top.volumes.get(tkeys[1])} expected 0.33", case=case1, detail={}))
-            keys.append(f"user:{give_t}:{give_v3}:{give_v2}:{order}")
+            keys.append(f"user:{give_t}:{give_v3}:{give_v2}:{order}:{skip}")
     return viols, evals, keys
 
 
